@@ -411,9 +411,30 @@ def gen_program(r, fam, workers):
     return p, unsafe
 
 
+def stress_cases(r, n):
+    """long repeated-rendezvous programs under low preemption probability: the setting in which a waiter
+    gets from its hand-over to its next publication while the previous signaller is still inside signal"""
+    cases = []
+    for i in range(n):
+        p = Prog()
+        workers = r.choice([2, 3, 3, 4])
+        k = r.below(3)
+        if k == 0:
+            joins = chain(r, p, 0, False, r.rng(6, 8))
+        elif k == 1:
+            joins = pair_spsc(r, p, 0, False, r.rng(4, 6))
+        else:
+            joins = chain(r, p, 0, r.chance(1, 2), r.rng(4, 8))
+        for t in joins:
+            p.op(0, "join %d" % t)
+        cases.append({"family": "stress", "workers": workers, "unsafe": None,
+                      "text": p.text(workers, r.rng(1, 1 << 30), r.choice([6, 10, 15, 20, 30]))})
+    return cases
+
+
 def gen_cases(ctx, n):
     r = ctx.rng
-    cases = []
+    cases = stress_cases(r, max(10, n // 4))
     for i in range(n):
         fam = FAMILIES[i % len(FAMILIES)]
         workers = [1, 2, 2, 3, 4][(i // len(FAMILIES)) % 5]
@@ -484,15 +505,18 @@ def load_corpus():
 
 
 def search_oracle_failure(ctx, exe, drv, case, tries):
-    """re-run the program of a disagreeing case under more controller seeds / preemption-heavy settings"""
+    """the model disagrees but the oracle is satisfied: re-run the disagreeing program under more controller
+    seeds (preemption-heavy and preemption-light) and a batch of stress programs, looking for a run on which
+    the property itself fails"""
     r = ctx.rng
     alts = []
-    for k in range(tries):
+    for k in range(tries // 3):
         t = re.sub(r"^seed \d+", "seed %d" % r.rng(1, 1 << 30), case["text"], flags=re.M)
-        t = re.sub(r"^pswitch \d+", "pswitch %d" % r.choice([60, 70, 80, 90]), t, flags=re.M)
+        t = re.sub(r"^pswitch \d+", "pswitch %d" % r.choice([5, 10, 20, 60, 75, 90]), t, flags=re.M)
         if case["workers"] >= 2 and r.chance(1, 2):
             t = re.sub(r"^workers \d+", "workers %d" % r.rng(2, 4), t, flags=re.M)
         alts.append(dict(case, text=t))
+    alts += stress_cases(r, tries - len(alts))
     for o in run_cases(ctx, exe, drv, alts, tag="s"):
         if o["oracle"]:
             return o
@@ -521,7 +545,7 @@ def summarize(ctx, results):
 def run(ctx):
     broken, log = ctx.prove("Properties_C08.v", "Properties_C08")
     exe, drv = build(ctx)
-    n = 45 if not ctx.thorough else 900
+    n = 150 if not ctx.thorough else 3000
     cases = load_corpus() + gen_cases(ctx, n)
     results = run_cases(ctx, exe, drv, cases)
     hist, spins, dist, verd, st = summarize(ctx, results)
@@ -553,7 +577,7 @@ def run(ctx):
                                               "trace_tail": o["res"]["trace_text"].split("\n")[-25:]}, found=True)
     elif bad_model:
         o = bad_model[0]
-        hit = search_oracle_failure(ctx, exe, drv, o["case"], 60 if not ctx.thorough else 400)
+        hit = search_oracle_failure(ctx, exe, drv, o["case"], 300 if not ctx.thorough else 3000)
         if hit:
             ctx.violation("oracle", hit["oracle"], {"case": hit["case"]["text"], "observed": hit["oracle"],
                                                     "expected": "each uwait is resumed exactly once; verdict DONE",
